@@ -1,6 +1,7 @@
 package main
 
 import (
+	"encoding/base64"
 	"encoding/json"
 	"fmt"
 	"math/rand"
@@ -10,6 +11,8 @@ import (
 	"regexp"
 	"sort"
 	"strings"
+	"time"
+	"unicode/utf8"
 
 	"github.com/rkosegi/yaml-toolkit/pipeline"
 	"gopkg.in/yaml.v3"
@@ -37,7 +40,13 @@ type c13RStep struct {
 	Value   W      `json:"value,omitempty"`   // put: the node placed at Path (wire form)
 	File    string `json:"file,omitempty"`    // write / unlink: a name inside the case's directory
 	Content []byte `json:"content,omitempty"` // write
+	// write: the file keeps the modification time it had before (cp -p, rsync -t, reproducible-build tooling, a file
+	// system with coarse timestamps): what an import stores is a matter of the file's CONTENT at that moment
+	Pin bool `json:"pin,omitempty"`
 }
+
+// c13PinnedTime: the modification time every pinned file carries.
+var c13PinnedTime = time.Unix(1000000000, 0)
 
 type c13Rerun struct {
 	Data  W              `json:"data"`
@@ -270,6 +279,10 @@ func c13EvalRerun(c *Ctx, raw []byte) {
 		case "write":
 			edits++
 			_ = os.WriteFile(filepath.Join(dir, st.File), st.Content, 0o644)
+			if st.Pin {
+				_ = os.Chtimes(filepath.Join(dir, st.File), c13PinnedTime, c13PinnedTime)
+				c.Dist("rerun:file-rewritten-with-its-modification-time-kept")
+			}
 		case "unlink":
 			edits++
 			_ = os.Remove(filepath.Join(dir, st.File))
@@ -334,6 +347,9 @@ func c13EvalRerun(c *Ctx, raw []byte) {
 					"same-object":  map[string]any{"out": tag, "text": txt, "data": after, "files": outs},
 					"fresh-object": map[string]any{"out": tagR, "text": txtR, "data": afterR, "files": outsR}}))
 			c.Dist(fmt.Sprintf("rerun:%s:execution-%d:%s", p.Kind, min(runs, 4), tag))
+			if p.Kind == "import" && tag == "ok" {
+				c13ImportStoresContent(c, spec, dir, before, after, runs, det)
+			}
 			if p.Kind != "export" {
 				continue
 			}
@@ -402,6 +418,86 @@ func c13EvalRerun(c *Ctx, raw []byte) {
 		c.Dist("rerun:data-changed-between-executions")
 	}
 	_ = edits
+}
+
+// c13ImportStoresContent: an import that succeeded stored what the file named at that moment holds at that
+// moment — the text (text mode, the default), its base64 (binary), or the document yaml.v3 / encoding/json read
+// from it (yaml / json; documents whose top level is a mapping) — whatever an earlier execution read from a file
+// of that name.  The file name is an immediate value or `$DIR/{{ .fn }}` (resolved on the wire document); the path
+// is an immediate, non-empty path.
+func c13ImportStoresContent(c *Ctx, spec map[string]any, dir string, before, after W, run int, det func(any) any) {
+	file, _ := spec["file"].(string)
+	path, _ := spec["path"].(string)
+	mode, _ := spec["mode"].(string)
+	if strings.Contains(file, "{{ .fn }}") {
+		fn, ok := c13WireAt(before, "fn")
+		if !ok || !isWireLeaf(fn) {
+			return
+		}
+		t, _ := fn.(map[string]any)["v"].(string)
+		file = strings.ReplaceAll(file, "{{ .fn }}", t)
+	}
+	if strings.Contains(file, "{{") || strings.Contains(path, "{{") || path == "" || filepath.Dir(file) != dir {
+		return
+	}
+	if segs, ok := c13ParsePath(path); !ok || len(segs) == 0 {
+		return
+	}
+	content, err := os.ReadFile(file)
+	if err != nil {
+		return
+	}
+	var want W
+	switch mode {
+	case "", "text":
+		if !utf8.Valid(content) {
+			return
+		}
+		want = scalarWire(string(content))
+	case "binary":
+		want = scalarWire(base64.StdEncoding.EncodeToString(content))
+	case "yaml", "json":
+		var v any
+		if mode == "yaml" {
+			err = yaml.Unmarshal(content, &v)
+		} else {
+			err = json.Unmarshal(content, &v)
+		}
+		m, isMap := v.(map[string]any)
+		if err != nil || !isMap {
+			return
+		}
+		want = plainWire(m)
+	default:
+		return
+	}
+	got, ok := c13WireAt(after, path)
+	c.Dist("rerun:import:content-at-that-time-checked:" + mode)
+	c.Direct("import stores what the file holds at the time of the execution", ok && canon(got) == canon(want),
+		det(map[string]any{"execution": run, "mode": mode, "file-content-now": string(content), "stored": got, "want": want}))
+}
+
+// c13SameLength: another content of the same length — one letter / digit exchanged for another one.
+func c13SameLength(r *rand.Rand, b []byte) []byte {
+	var at []int
+	for i, ch := range b {
+		if (ch >= 'a' && ch <= 'z') || (ch >= '1' && ch <= '9') {
+			at = append(at, i)
+		}
+	}
+	if len(at) == 0 {
+		return nil
+	}
+	out := append([]byte{}, b...)
+	i := pick(r, at)
+	for out[i] == b[i] {
+		if b[i] >= 'a' && b[i] <= 'z' {
+			out[i] = byte('a' + r.Intn(26))
+		} else {
+			out[i] = byte('1' + r.Intn(9))
+		}
+	}
+	return out
 }
 
 // ------------------------------------------------------------------ generators
@@ -651,7 +747,21 @@ func c13RerunOther(r *rand.Rand, g *DocGen, kind string) c13Rerun {
 			}
 			return []byte(pick(r, []string{"", "abc", "x: 1\n", "{{ .a }}", "é\x00\xff", "line1\nline2\n"}))
 		}
-		cs.Steps = append(cs.Steps, c13RStep{Do: "write", File: "in1.dat", Content: content()})
+		first := content()
+		cs.Steps = append(cs.Steps, c13RStep{Do: "write", File: "in1.dat", Content: first})
+		if r.Intn(3) == 0 {
+			// the file is rewritten in place between the executions: content of the same length (one letter / digit
+			// exchanged), modification time kept
+			cs.Steps[len(cs.Steps)-1].Pin = true
+			prev := first
+			for i := 0; i < 3; i++ {
+				if next := c13SameLength(r, prev); next != nil {
+					special = append(special, c13RStep{Do: "write", File: "in1.dat", Content: next, Pin: true})
+					prev = next
+				}
+			}
+			special = append(special, special...) // (drawn more often than the other edits)
+		}
 		if r.Intn(2) == 0 {
 			cs.Steps = append(cs.Steps, c13RStep{Do: "write", File: "in2.dat", Content: content()})
 		}
@@ -696,6 +806,18 @@ func c13RunRerun(c *Ctx) {
 	c13RunLarge(c)    // large files (c13_more.go)
 	r := c.Rng
 	g := c13Gen()
+	if !c.searchMode {
+		// the smallest import histories: one file rewritten in place (same length; modification time kept or not)
+		for _, h := range [][3]string{{"yaml", "a: one\n", "a: two\n"}, {"json", `{"a":1}`, `{"a":2}`}, {"text", "one", "two"}, {"binary", "one", "two"}, {"yaml", "a: 1\n", "b: 1\n"}} {
+			for _, pin := range []bool{true, false} {
+				c.Do("rerun", c13Rerun{Data: map[string]any{"m": map[string]any{}}, Kind: "import",
+					Spec: map[string]any{"file": c13DirMark + "/in1.dat", "mode": h[0], "path": "imp"},
+					Steps: []c13RStep{{Do: "write", File: "in1.dat", Content: []byte(h[1]), Pin: pin}, {Do: "run"},
+						{Do: "write", File: "in1.dat", Content: []byte(h[2]), Pin: pin}, {Do: "run"},
+						{Do: "write", File: "in1.dat", Content: []byte(h[1]), Pin: pin}, {Do: "run"}}})
+			}
+		}
+	}
 	for i := 0; i < c.N(700); i++ {
 		c.Tick()
 		c.Do("rerun", c13RerunExport(r, g))
